@@ -9,7 +9,7 @@
    Part 2: soundness of the certificate checker that is evaluated on every observed
    Network.from_units result. *)
 From Coq Require Import Permutation Relations.
-From V Require Import C19.Model C19.Proofs C19.ProofsSurgery C19.ProofsPaths C19.ProofsDeep.
+From V Require Import C19.Model C19.Proofs C19.ProofsSurgery C19.ProofsPaths C19.ProofsDeep C19.ProofsWhole.
 Local Open Scope nat_scope.
 
 (* the sorted path is a permutation of the input path (no hypothesis on reach: also on cyclic paths) *)
@@ -534,3 +534,79 @@ Example C19_first_loop_once_nonvacuous :
   exists r, join_recycle es all [] 20 (linear_phase 0 [[0; 3; 4; 5; 7]; [1; 2]; [6]]) (unet [0; 3; 5; 7] [10]) = Some r
             /\ flatn r = [0; 3; 4; 5; 7; 1; 2; 6].
 Proof. cbv zeta. split; [vm_compute; reflexivity|]. eexists. split; vm_compute; reflexivity. Qed.
+
+(* ---- part 8: the whole methods of the multi-feed phase of from_feedstock (Model.v part 7: _append_network,
+   join_network_at_unit, reduce_recycles; tied to the code by replaying every recorded call, and by direct calls of the
+   real methods on pairs of from_units results) *)
+(* _append_network: every unit of the receiver in order, then every unit of the argument in order, in all four
+   branches (receiver / argument with or without a recycle) *)
+Theorem C19_append_network_order : forall s n, is_net s = true -> is_net n = true ->
+  flatn (append_network s n) = flatn s ++ flatn n.
+Proof. exact append_network_flat. Qed.
+Print Assumptions C19_append_network_order.
+
+Theorem C19_append_network_units : forall s n, good s -> good n ->
+  good (append_network s n) /\ seteq (n_units (append_network s n)) (n_units s ++ n_units n).
+Proof. exact append_network_ok. Qed.
+Print Assumptions C19_append_network_units.
+
+Theorem C19_append_network_once : forall s n, is_net s = true -> is_net n = true ->
+  NoDup (flatn s) -> NoDup (flatn n) -> (forall z, In z (flatn s) -> ~ In z (flatn n)) ->
+  NoDup (flatn (append_network s n)).
+Proof. exact append_network_once. Qed.
+Print Assumptions C19_append_network_once.
+
+(* reduce_recycles, for every tree and stream table: the units of the path and their order, `units`, and
+   `units` = units of the path at every level are unchanged *)
+Theorem C19_reduce_keeps_path : forall all x r, reduce all x = Some r ->
+  flatn r = flatn x /\ n_units r = n_units x /\ is_net r = is_net x /\ (uok x -> uok r).
+Proof. exact reduce_keeps. Qed.
+Print Assumptions C19_reduce_keeps_path.
+
+(* a recycle set is kept or replaced by one stream: a network that carried a recycle still carries one *)
+Theorem C19_reduce_recycle_kept : forall all r r', reduce_rc all r = Some r' ->
+  (r' = r \/ exists o, r' = [o] /\ 2 <= length r) /\ (r' = [] <-> r = []).
+Proof. intros all r r' H. split; [exact (reduce_rc_shape all r r' H)|exact (reduce_rc_nonempty all r r' H)]. Qed.
+Print Assumptions C19_reduce_recycle_kept.
+
+(* join_network_at_unit with an argument that carries no recycle (the top-level recycle of a network under
+   construction is None, so this is the call from_feedstock makes), for every stream graph, receiver and unit: the
+   argument is unchanged; if receiver and argument hold each unit once and share none, the result holds exactly
+   their units, each once, with `units` = units of the path *)
+Theorem C19_join_at_unit_once : forall es all tbl f s n unit r n',
+  good s -> good n -> NoDup (flatn s) -> NoDup (flatn n) ->
+  (forall z, In z (flatn n) -> ~ In z (flatn s)) -> n_rc n = [] ->
+  join_at es all tbl (S f) s n unit = Some (r, n') ->
+  n' = n /\ good r /\ seteq (n_units r) (n_units s ++ n_units n) /\
+  NoDup (flatn r) /\ Permutation (flatn r) (flatn s ++ flatn n).
+Proof. exact join_at_linear_once. Qed.
+Print Assumptions C19_join_at_unit_once.
+
+(* and the argument's units are spliced in as one block, in their order, the receiver's units keeping theirs *)
+Theorem C19_join_at_unit_order : forall es all tbl f s n unit r n', is_net s = true -> is_net n = true -> n_rc n = [] ->
+  join_at es all tbl (S f) s n unit = Some (r, n') ->
+  (exists a b, flatn s = a ++ b /\ flatn r = a ++ flatn n ++ b) \/ r = join_linear (S f) s n.
+Proof. exact join_at_linear_order. Qed.
+Print Assumptions C19_join_at_unit_order.
+
+(* non-vacuity: a second feed's network [4; 5] joined at unit 2, which sits inside the loop [1; 2] *)
+Example C19_join_at_unit_nonvacuous :
+  let s := NN [NU 0; NN [NU 1; NU 2] [7] [1; 2]; NU 3] [] [0; 1; 2; 3] in
+  let n := unet [4; 5] [] in
+  good s /\ good n /\ NoDup (flatn s) /\ NoDup (flatn n) /\ (forall z, In z (flatn n) -> ~ In z (flatn s)) /\
+  join_at [] [] [] 20 s n 2 = Some (NN [NU 0; NU 4; NU 5; NN [NU 1; NU 2] [7] [1; 2]; NU 3] [] [0; 1; 2; 3; 4; 5], n) /\
+  append_network (set_rc s [9]) n = NN [set_rc s [9]; NU 4; NU 5] [] [0; 1; 2; 3; 4; 5].
+Proof.
+  cbv zeta.
+  split; [apply okb_good; vm_compute; reflexivity|]. split; [apply unet_good|].
+  split; [apply nodup_pathb_NoDup; vm_compute; reflexivity|]. split; [apply nodup_pathb_NoDup; vm_compute; reflexivity|].
+  split; [|split; vm_compute; reflexivity].
+  intros z Hn Hs. cbn in Hn, Hs. lia.
+Qed.
+
+(* the loop {1, 2} with two return streams 2 -> 1 (streams 4 and 5), unit 1 having a single outlet (stream 1): the only
+   child is lifted and the recycle set is replaced by the single outlet of the common sink *)
+Example C19_reduce_nonvacuous :
+  let all := [(0, nounit, 1); (1, 1, 2); (4, 2, 1); (5, 2, 1); (6, 2, nounit)] in
+  reduce all (NN [NN [NU 1; NU 2] [4; 5] [1; 2]] [] [1; 2]) = Some (NN [NU 1; NU 2] [1] [1; 2]).
+Proof. vm_compute. reflexivity. Qed.
